@@ -169,6 +169,62 @@ TEXT = {
                 "approvals), F28 (an authorization envelope without signatures makes the prediction fail hard), F1 (global rules).",
         "technique": "Lean 4 proof (case analysis / induction over the verifier loop) + differential correspondence: predict, record, verify",
     },
+    "C10": {
+        "text": "This check covers layer (a) of C10 only - the path codec (the verification layer, every changed path that a file rule "
+                "matches is verified, is C10b). git's output formats (ls-tree, ls-tree -r, --name-only with C-style quoting under the default "
+                "core.quotePath, and the -z forms) and gittuf's parsers exactly as coded (whole-output TrimSpace, split at newline, at blank, at "
+                "tab) are executable Lean functions over byte strings. Proved: the NUL-delimited readers return every NUL-free name verbatim "
+                "(paths_roundtrip_z, paths_verbatim_z) and GetFilePathsChangedByCommit built on them returns exactly the prescribed list for "
+                "root, linear and merge commits (changed_verbatim_z); the readers as coded are verbatim for names made of safe bytes only "
+                "(paths_roundtrip_partial, changed_one_partial; predicate safeName); paths_witness / paths_not_verbatim_as_coded prove the full "
+                "statement false for the code as it stands. The model is compared with the real GetFilePathsChangedByCommit, GetAllFilesInTree "
+                "and GetEntriesInTree on real repositories over odd names, and the real results are judged against git's own -z output.",
+        "note": TB + "Layer (a) only. Open finding F8: without -z / core.quotePath=off, names with bytes >= 0x80, quotes, backslashes or control "
+                "bytes arrive C-quoted, names with blanks are truncated by the ls-tree parsers, leading/trailing blanks of the first/last name "
+                "are trimmed. The verbatim theorem for the ls-tree line parser on safe names is checked per case by the driver, not proved.",
+        "technique": "Lean 4 proof (byte-level split/trim lemmas) + differential correspondence on real repositories",
+    },
+    "C18": {
+        "text": "Lean model of PropagateChangesFromUpstreamRepository: latest unskipped upstream entry, the already-propagated check via "
+                "GetPathIDInTree, CreateSubtreeFromUpstreamRepository (flatten through the ls-tree parser, prefix filter with the added slash, "
+                "graft when the tree object exists else copy, TreeBuilder incl. Go map-order dependence, git mktree's unquoting, mode 100644) and "
+                "the propagation entry fields, with one Variant flag per known defect. Proved for all trees, directories and directives on the "
+                "list level: the prescribed result restricted to the downstream path is exactly the upstream subtree (prop_subtree); every entry "
+                "outside keeps name, blob and mode and nothing is added (prop_frame); foo is not below foo, foobar/x and 'foo bar' are not below "
+                "foo (under_self, under_sibling); with the repaired check a repeated directive creates no commit and no entry, however often "
+                "(prop_idempotent, prop_idempotent_n); in every variant a recorded entry names the directive, the latest unskipped upstream entry "
+                "and the commit just created (prop_entry). F15_witness / F15_repaired / F8_F16_witness prove the defects on the model as coded. "
+                "The model is compared with the real code on real upstream/downstream repositories after every call; the prescribed result is "
+                "evaluated on what the real code did.",
+        "note": TB + "Open findings F15 (upstream path: re-propagates on every call), F8 (names with blanks truncated, quoted names below a "
+                "directory make git mktree fail), F16 (modes of every re-written blob become 100644). That the repaired model equals the "
+                "prescribed result (it goes through the tree builder) is checked by the driver on every case, not proved.",
+        "technique": "Lean 4 proof (list lemmas on flattened trees) + differential correspondence on real repositories",
+    },
+    "C16": {
+        "text": "The mutating operations are modelled as programs over Storer calls with fault-at-k and stop-after-k interpreters. For five "
+                "starting stores (empty, first-ever, first-ever Apply, established, policy ahead of staging), every operation and EVERY "
+                "call index, the repaired variant is proved to report the error, keep a valid chain, keep references unchanged or equal "
+                "to their latest entry, and reach the uninterrupted state on retry (fault_all_partial); the code as it stands is proved so "
+                "on the established store except for GetCommitMessage faults (fault_established_code); crash_chain_partial covers every "
+                "stopping point. fault_F13_witness / fault_F50_witness / fault_F51_witness prove the three defects in the model of the "
+                "code; the real code is run with the same faults on real repositories and must agree with the model.",
+        "note": TB + "F13, F50, F51 are open. The theorems are bounded to the listed starting stores (all k); the universally quantified statements "
+                "are kept as fault_statement / crash_statement. crash_verdict is checked on the implementation only.",
+        "technique": "Lean 4 kernel evaluation over all fault points + fault-injecting differential testing",
+    },
+    "C17": {
+        "text": "conc_linear is proved for every number of threads, every program that moves the log reference only through Commit / "
+                "compare-and-set (the recording operations: disc_recordRef, disc_annotate) and every schedule: objects are only added, "
+                "every earlier log tip stays reachable from every later one along first parents, created commits have at most one parent. "
+                "conc_numbers_witness proves that the code's two-read protocol yields two entries with the same number (F14). For two "
+                "writers and EVERY schedule of their calls (2^8 / 2^10 orders, kernel-evaluated) conc_exactly_once_partial (code protocol, "
+                "both granularities) and conc_numbers_partial (repaired protocol: number and parent from one read) are proved; the "
+                "unbounded statements are kept as conc_exactly_once_statement / conc_numbers_statement. The model is compared with real "
+                "goroutines on a real repository whose Storer calls follow the same schedules.",
+        "note": TB + "F14 is open and reproduced on every run. exactly-once and numbering are proved for two writers only (all schedules), not for n.",
+        "technique": "Lean 4 proof (invariant over the step relation) + exhaustive kernel evaluation over schedules + schedule-controlled differential testing",
+    },
 }
 
 NOT_YET = {}
